@@ -5,6 +5,7 @@ import (
 	"go/ast"
 	"go/constant"
 	"go/token"
+	"go/types"
 	"sort"
 	"strings"
 
@@ -27,7 +28,7 @@ var t24501Extra8321 = map[int64]int64{
 }
 
 func c12(c *core.Ctx) map[string]interface{} {
-	c.Explanation = "Static table/offset/termination check of the hand-written extractors in stgutg/pdu.go (C12). Decided: (R12.tab) the optional-IE length table and the half-octet list of DecodePDUSessionNASPDU agree, row by row, with the library's own PDU SESSION ESTABLISHMENT ACCEPT codec (IEI, fixed size resp. one/two length octets - the writer's and the reader's tables agree) and with TS 24.501 table 8.3.2.1.1 for the five IEIs the library does not know; (R12.off) every fixed offset, expressed as a linear form so that regrouping constants does not matter, equals the layout computed from the library's message definitions: 7-octet security header, DL NAS TRANSPORT payload-container length at octet 4, QoS-rules length at octet 5 of the Accept, optional part starting 14 + QoS-rules length octets in, PDU address value at IEI+3..IEI+7 and matched by the library's IEI 0x29; in the transfer walk the IE id is compared with ProtocolIEIDULNGUUPTNLInformation at IE-aligned positions (start 3, stride id 2 + criticality 1 + length 1 + length), TEID = last 4 octets and address = the 4 octets before; (R12.term) on every path through both loops the index strictly increases or the loop is left (lower bounds from an interval analysis that models wrap-around of narrow integer arithmetic). (R2.report) EstablishPDU hands the PDU Session NAS-PDU and the transfer of item 0 of the received setup list - and nothing else - to the two extractors and returns their results, which main registers with the data plane. NOT decided: equality of the returned values for all network encodings (e.g. a length determinant above 127 in the transfer), behaviour on truncated input (a panic terminates); R12.pos (positional access List[2]) is informational."
+	c.Explanation = "Static table/offset/termination check of the hand-written extractors in stgutg/pdu.go (C12). Decided: (R12.tab) the optional-IE length table and the half-octet list of DecodePDUSessionNASPDU agree, row by row, with the library's own PDU SESSION ESTABLISHMENT ACCEPT codec (IEI, fixed size resp. one/two length octets - the writer's and the reader's tables agree) and with TS 24.501 table 8.3.2.1.1 for the five IEIs the library does not know; (R12.off) every fixed offset, expressed as a linear form so that regrouping constants does not matter, equals the layout computed from the library's message definitions: 7-octet security header, DL NAS TRANSPORT payload-container length at octet 4, QoS-rules length at octet 5 of the Accept, optional part starting 14 + QoS-rules length octets in, PDU address value at IEI+3..IEI+7 and matched by the library's IEI 0x29; in the transfer walk the IE id is compared with ProtocolIEIDULNGUUPTNLInformation at IE-aligned positions (start 3, stride id 2 + criticality 1 + length 1 + length), TEID = last 4 octets and address = the 4 octets before; (R12.term) on every path through both loops the index strictly increases or the loop is left (lower bounds from an interval analysis that models wrap-around of narrow integer arithmetic). (R12.tight) no extraction slice is guarded by a bound one octet stricter than it needs (directly or through an inclusive-position helper given the exclusive end); (R2.report) EstablishPDU hands the PDU Session NAS-PDU and the transfer of item 0 of the received setup list - and nothing else - to the two extractors and returns their results, which main registers with the data plane. NOT decided: equality of the returned values for all network encodings (e.g. a length determinant above 127 in the transfer), behaviour on truncated input (a panic terminates); R12.pos (positional access List[2]) is informational."
 	c.Assumptions = []string{"the Accept is carried in a protected DL NAS TRANSPORT as payload container (the emulator's use)", "APER encoding of the transfer: 1 preamble octet + 2-octet container length, each IE = id(2) criticality(1) length(1, < 128) value"}
 	m := buildNasModel(c)
 	r12tab(c, m)
@@ -35,6 +36,7 @@ func c12(c *core.Ctx) map[string]interface{} {
 	r12transfer(c)
 	r12skip(c)
 	r12term(c)
+	r12tight(c)
 	// the values reported are those of the setup item the request carries (R2.report, shared with C02)
 	r2report(c, driverModel(c, mustFunc(c, pStg, "EstablishPDU")))
 	return nil
@@ -320,6 +322,40 @@ func r12transfer(c *core.Ctx) {
 		}
 	}
 	id := mustConst(c, pNgapT, "ProtocolIEIDULNGUUPTNLInformation")
+	// the IE walk may have been moved into a helper of the same package that is handed the transfer
+	if len(allLoopPhis(fn)) == 0 {
+		for _, ci := range core.Calls(fn) {
+			callee := ci.Common().StaticCallee()
+			if callee == nil || fnPkgPath(callee) != pStg || len(callee.Blocks) == 0 || len(ci.Common().Args) == 0 || p.Path(ci.Common().Args[0]) != "p0" {
+				continue
+			}
+			hp := core.NewPather(callee)
+			for _, l := range allLoopPhis(callee) {
+				if !strings.HasPrefix(hp.Path(l.cond), "("+hp.Path(l.phi)+"<call:builtin.len(p0))") {
+					continue
+				}
+				// a generic splitter: does it stop at the IE the caller wants?
+				stops := false
+				for _, blk := range callee.Blocks {
+					if iff, ok := blk.Instrs[len(blk.Instrs)-1].(*ssa.If); ok && strings.Contains(hp.Path(iff.Cond), "Uint16(") {
+						stops = true
+					}
+				}
+				oneOctet := false
+				for _, e := range l.backEdges {
+					lf := core.Linearize(hp, e)
+					for t := range lf.T {
+						if strings.HasPrefix(t, "p0[") {
+							oneOctet = true
+						}
+					}
+				}
+				c.Check(stops || !oneOctet, R, "stgutg.DecodePDUSessionResourceSetupRequestTransfer:stops-at-match", l.phi.Pos(), "walk ends at the wanted IE",
+					"the transfer is split by %s, which walks every IE of the container with a one-octet length reader and no exit at id-UL-NGU-UP-TNLInformation: an IE of 128 octets or more after it (a QoS flow list with many flows) is misread, the walk loses IE alignment and the result is overwritten or the walk panics", shortName(core.FuncName(callee)))
+				return
+			}
+		}
+	}
 	var loop *loopInfoX
 	for _, l := range allLoopPhis(fn) {
 		l := l
@@ -588,5 +624,87 @@ func r12term(c *core.Ctx) {
 		if n == 0 {
 			c.SoftUndecided("%s: no index loop found", name)
 		}
+	}
+}
+
+// ---------------------------------------------------------------- R12.tight
+// A truncation guard in front of an extraction must ask for exactly what the
+// extraction reads. S[lo:hi] needs hi <= len(S); a guard that demands hi < len(S)
+// (directly, or through a helper with an inclusive "last readable position"
+// contract that is handed the exclusive end) refuses the well-formed input whose
+// element ends exactly at the end of the buffer — e.g. an Accept whose last IE is the
+// PDU address — and the value is not reported.
+func r12tight(c *core.Ctx) {
+	const R = "R12.tight"
+	c.Rule(R, "extractors: no slice S[lo:hi] is guarded by the stricter hi < len(S) (an element that ends the buffer must still be read)")
+	// helpers of the form  h(buf, x) = [x >= 0 &&] x < len(buf)
+	inclusive := map[string]bool{}
+	if sp := c.P.SSAPkg(pStg); sp != nil {
+		for _, f := range allFuncsOf(sp) {
+			if len(f.Params) != 2 || f.Signature.Results().Len() != 1 {
+				continue
+			}
+			if bt, ok := f.Signature.Results().At(0).Type().Underlying().(*types.Basic); !ok || bt.Kind() != types.Bool {
+				continue
+			}
+			hp := core.NewPather(f)
+			for _, b := range f.Blocks {
+				for _, in := range b.Instrs {
+					if bo, ok := in.(*ssa.BinOp); ok && bo.Op == token.LSS && hp.Path(bo.X) == "p1" && hp.Path(bo.Y) == "call:builtin.len(p0)" {
+						inclusive[core.FuncName(f)] = true
+					}
+				}
+			}
+		}
+	}
+	n := 0
+	for _, name := range []string{"DecodePDUSessionNASPDU", "DecodePDUSessionResourceSetupRequestTransfer"} {
+		fn := mustFunc(c, pStg, name)
+		p := core.NewPather(fn)
+		ord := ordinals{}
+		for _, b := range fn.Blocks {
+			for _, in := range b.Instrs {
+				sl, ok := in.(*ssa.Slice)
+				if !ok || sl.High == nil {
+					continue
+				}
+				n++
+				base, hi := p.Path(sl.X), core.Linearize(p, sl.High).String()
+				key := "stgutg." + name + ":" + ord.next("slice") + ":" + clip(p.Path(sl))
+				bad := ""
+				for x := b; x != nil && bad == ""; x = x.Idom() {
+					id := x.Idom()
+					if id == nil {
+						break
+					}
+					iff, isIf := id.Instrs[len(id.Instrs)-1].(*ssa.If)
+					if !isIf || len(x.Preds) != 1 || x.Preds[0] != id {
+						continue
+					}
+					taken := id.Succs[0] == x
+					cond := iff.Cond
+					if un, isNot := cond.(*ssa.UnOp); isNot && un.Op == token.NOT {
+						cond, taken = un.X, !taken
+					}
+					if !taken {
+						continue
+					}
+					switch y := cond.(type) {
+					case *ssa.BinOp:
+						if y.Op == token.LSS && p.Path(y.Y) == "call:builtin.len("+base+")" && core.Linearize(p, y.X).String() == hi {
+							bad = "hi < len(S)"
+						}
+					case *ssa.Call:
+						if inclusive[core.CalleeName(&y.Call)] && len(y.Call.Args) == 2 && p.Path(y.Call.Args[0]) == base && core.Linearize(p, y.Call.Args[1]).String() == hi {
+							bad = shortName(core.CalleeName(&y.Call)) + "(S, hi), whose contract is \"hi itself is a readable position\""
+						}
+					}
+				}
+				c.Check(bad == "", R, key, sl.Pos(), "no stricter guard", "the slice %s is only taken when %s holds: the guard asks for one octet more than the slice reads, so an element that ends exactly at the end of the buffer (a well-formed message whose last IE this is) is skipped and its value is not reported", clip(p.Path(sl)), bad)
+			}
+		}
+	}
+	if n < 4 {
+		c.Undecided("R12.tight: only %d slices found in the extractors", n)
 	}
 }
